@@ -136,7 +136,11 @@ def stream_strings(ctx, ntables):
                     try:
                         vm = sorted(set(df["s"].dropna())); v = float(vm.index(s))
                         F = syn.forest; col = list(df.columns).index("s")
-                        vals = F.data[:, col]; fin = F.snapped_intervals[col]
+                        # the codes are recomputed from the raw input (sorted distinct strings by code points) - not read from the forest, whose own encoding
+                        # is part of what is being checked
+                        import numpy as np
+                        codes = {s_: float(i) for i, s_ in enumerate(vm)}
+                        vals = np.array([codes[x] if isinstance(x, str) and x in codes else np.nan for x in df["s"]]); fin = F.snapped_intervals[col]
                         inr = vals[(vals >= fin.min) & (vals < fin.max)]
                         sel = vals == v
                         if len(inr) and v == inr.max(): sel = sel | (vals >= fin.max)
